@@ -601,26 +601,30 @@ func (h *vSd) scripted(kind int, r *vrand) {
 	case 5: // shutdown with data still queued and in flight; a stale SACK and a duplicate SHUTDOWN on the way
 		h.do("sd write 0 0 500")
 		h.do("sd write 0 0 900")
-		h.do("sd gather 0")
+		h.do("sd gather 0") // two packets (MTU)
 		h.do("sd write 0 %d 700", h.ns-1)
-		h.do("sd shutdown 0")
+		h.do("sd shutdown 0") // SHUTDOWN-PENDING
 		h.do("sd write 0 0 5") // rejected
-		h.do("sd open 0")
+		h.do("sd open 0")      // rejected
 		h.do("sd deliver 0 0")
 		h.do("sd ackt 1")
-		h.do("sd gather 1")
-		h.do("sd gather 0")
+		h.do("sd gather 1") // SACK 1
+		h.do("sd gather 0") // the third message, under SHUTDOWN-PENDING
 		h.do("sd deliver 0 1")
 		h.do("sd ackt 1")
-		h.do("sd gather 1")
+		h.do("sd gather 1") // SACK 2
 		h.do("sd deliver 1 1")
 		h.do("sd deliver 1 0") // stale SACK
-		h.do("sd gather 0")    // SHUTDOWN
+		h.do("sd deliver 0 2")
+		h.do("sd ackt 1")
+		h.do("sd gather 1") // SACK 3
+		h.do("sd deliver 1 %d", h.newest(1))
+		h.do("sd gather 0") // SHUTDOWN
 		h.do("sd deliver 0 %d", h.newest(0))
 		h.do("sd deliver 0 %d", h.newest(0)) // duplicate SHUTDOWN
-		h.do("sd gather 1")
+		h.do("sd gather 1")                  // SHUTDOWN-ACK
 		h.do("sd deliver 1 %d", h.newest(1))
-		h.do("sd gather 0")
+		h.do("sd gather 0") // SHUTDOWN-COMPLETE
 		h.do("sd deliver 0 %d", h.newest(0))
 		h.l.stat("sd.scripted_pending_data")
 	}
@@ -630,6 +634,19 @@ func (h *vSd) scripted(kind int, r *vrand) {
 
 func vSdGenerate(h *vSd, r *vrand, nseq int) {
 	bases := []uint32{1000, 2000, 4294967294, 4294967290, 2147483646, 77}
+	if vEnvInt("VERIF_SD_SCRIPTED", 0) == 1 { // the scripted corner cases alone (this is how corpus/C08/sd_*.ops were written)
+		for kind := 0; kind < 6; kind++ {
+			h.do("sd new %d 2 %d %d", kind&1, bases[kind], bases[5-kind])
+			h.scripted(kind, r)
+			for x := 0; x < 2; x++ {
+				for sid := 0; sid < 2; sid++ {
+					h.do("sd read %d %d", x, sid)
+				}
+			}
+			h.do("sd fin 1")
+		}
+		return
+	}
 	for s := 0; s < nseq; s++ {
 		ns := 1 + r.n(3)
 		h.do("sd new %d %d %d %d", s&1, ns, bases[r.n(len(bases))], bases[r.n(len(bases))])
